@@ -29,6 +29,8 @@ CLAIMED = {
          "the quic matcher (spins a real quic-go listener with its own goroutines and timers) is not run inside the bubble; allocation is measured for matchers, handlers are checked for survival only; crash replays are by seed (the tape of a crashed run cannot be shrunk in-process)"),
  "C06": ("§6 C06", "Each input (generator-made valid message with trailing data, or a mutation) is delivered to the real router several times: whole, then under tape-chosen segmentations; a wrapper evaluates the shipped matcher twice per round and watches the client socket's read counter and the prefetch buffer. Oracle: no socket reads while matching, buffer untouched, repeatable verdict, a message that matches with the whole message buffered matches under every delivery, and a 'no' on a prefix is never followed by a 'yes' on a longer prefix of the same input.",
          "matchers that by design reject trailing bytes (dns/tcp, rdp, openvpn/tcp, winbox) get no trailing data; the quic matcher is excluded (see C04); inputs larger than MaxMatchingBytes are exempt from the whole-message reference"),
+ "C08": ("§6 C08", "Two phases. (1) 2..64 simultaneous connections with distinct position-coded streams through one shared configuration (shared throttle limiter, tee, subroute, proxy with a drawn policy over shared upstreams, openvpn matcher, deterministic poisoning buffer pool): every handler, branch, upstream and echo must see exactly its own connection's stream and each connection must take the route its own bytes select. (2) The same and the other concurrent worlds (relay, listener wrapper, load balancing, UDP, rewind) in a -race build driven by the same seeded scheduler, whose park/release hand-offs are hidden from the detector (runtime.RaceDisable), so two accesses are reported exactly when the repository does not order them; reports with both accesses attributed to repository code are violations, replayable by seed.",
+         "the race detector reports each distinct race once per process; the simulator's own (scheduler-serialised, detector-invisible) accesses are reported too and filtered by attribution; the poisoning pool gives the detector sync.Pool's Put->Get edge; one processor count (the schedule does not depend on GOMAXPROCS)"),
 }
 NA = {
  "C07": "pure function of the ClientHello bytes (differential input testing against crypto/tls): no schedule, clock, fault or interleaving for a simulator to decide; its one schedule-dependent clause is exercised under C06",
@@ -36,7 +38,7 @@ NA = {
  "C15": "Caddyfile->JSON adaptation and JSON round trip are pure single-threaded functions of the configuration text",
  "C18": "FromBytes/ToBytes inverse laws are pure functions of byte strings",
 }
-PENDING = ["C08"]
+PENDING = []
 m = {
  "version": 1,
  "setup_cmd": "./check build",
